@@ -773,7 +773,7 @@ theorem C11_fd_init (c : PduConfig) (ps : Params) (p : Pdu) (h : Pdu.new c ps = 
 theorem C11_fd_step_spec (p : Pdu) (s : Setter) :
     fdStep p s = if 65535 < (p.put s).calcLen then (p, some .value)
       else ({ p.put s with header := { (p.put s).header with dataFieldLen := (p.put s).calcLen } }, none) := by
-  unfold fdStep
+  unfold fdStep Pdu.step
   rw [recalc_eq]
   by_cases g : 65535 < (p.put s).calcLen
   · rw [if_pos g, if_pos g]
